@@ -10,7 +10,6 @@ namespace DepsDev.Proofs.C12Match
 
 open List DepsDev DepsDev.Semver DepsDev.Resolve.Match DepsDev.Proofs.SortUnique DepsDev.Proofs.C12Order
 
-abbrev RVersion := Resolve.Match.Version
 
 /-! ### `sortBase` -/
 
